@@ -29,7 +29,10 @@ namespace vshim {
 struct vmutex { int owner = -1; void lock(); void unlock(); bool try_lock(); };
 struct vcondvar {
     void wait_raw(std::unique_lock<vmutex>& l);
-    template <class P> void wait(std::unique_lock<vmutex>& l, P p) { while (!p()) wait_raw(l); }
+    // between the evaluation of the predicate and the sleep another thread may run (the mutex is still held: a notifier that takes
+    // it cannot get in, one that does not take it can - the window of a lost wake-up)
+    template <class P> void wait(std::unique_lock<vmutex>& l, P p) { while (!p()) { yield_holding(); wait_raw(l); } }
+    static void yield_holding();
     void wait(std::unique_lock<vmutex>& l) { wait_raw(l); }      // the form without a predicate (one sleep, no re-check)
     void notify_all(); void notify_one() { notify_all(); }
 };
